@@ -585,6 +585,13 @@ func (m *InterpModel) Instr(mc *Machine, st *State, in ssa.Instruction, ops []AV
 			m.Emit(st, e)
 			return
 		}
+		if fa, ok := x.Addr.(*ssa.FieldAddr); ok && (m.MainMode || m.EmitTests) {
+			if ops[0].K == KSym && !strings.HasPrefix(ops[0].S, "obj:") {
+				_ = fa
+				m.Emit(st, m.ev(in, "fieldstore", []string{ops[0].String(), ops[1].String()}, ""))
+				return
+			}
+		}
 		// element store into a Borno array / field store into non-local objects
 		if ia, ok := x.Addr.(*ssa.IndexAddr); ok {
 			if _, isSlice := ia.X.Type().Underlying().(*types.Slice); isSlice {
